@@ -18,7 +18,7 @@ CONSTANT DumpCases
 R == INSTANCE Req
 
 Modes == {"fn", "mod", "trait"}
-VisFor(mode) == IF mode = "fn" THEN {"", "pub", "pub(crate)", "pub(super)", "pub(in crate::cases)", "pub(in crate::cases::p)"} ELSE {"", "pub", "pub(crate)"}
+VisFor(mode) == IF mode = "fn" THEN {"", "pub", "pub(crate)", "pub(super)", "pub(in crate::cases)", "pub(in crate::cases::p)"} ELSE IF mode = "mod" THEN {"", "pub", "pub(crate)", "pub(super)"} ELSE {"", "pub", "pub(crate)"}
 \* the item's own visibility (fn, mod); for trait inputs: the visibility keyword written in the attribute before the
 \* delegation-target trait's name - neither may influence the generated trait's visibility
 ItemVis == {"", "pub", "pub(crate)"}
@@ -39,7 +39,9 @@ SameCrate(loc) == loc # "other-crate"
 \* Level 2: the items the expansion defines, as [name, def (module path), vis]
 Emitted(i) ==
   CASE i.mode = "fn"    -> { [name |-> "T", def |-> D, vis |-> i.vis] }
-    [] i.mode = "mod"   -> { [name |-> "m::T", def |-> D \o <<"m">>, vis |-> IF i.vis = "" THEN "pub(super)" ELSE i.vis],
+    [] i.mode = "mod"   -> { [name |-> "m::T", def |-> D \o <<"m">>,
+                              \* relative visibilities are shifted one level (since a "fix:" commit)
+                              vis |-> CASE i.vis = "" -> "pub(super)" [] i.vis = "pub(super)" -> "pub(in super::super)" [] OTHER -> i.vis],
                              [name |-> "T", def |-> D, vis |-> i.vis] }          \* `vis use m::T;`
     [] i.mode = "trait" -> { [name |-> "T", def |-> D, vis |-> i.vis] }          \* TrImpl: trait_copy.vis = the trait's visibility
 \* naming D::T from a location: the item (or re-export) called T in D must be accessible; a re-export additionally needs its
